@@ -86,6 +86,25 @@ def same_tree(a, b):
     return bool(a == b)
 
 
+def same_bytes(a, b):
+    """Would the two trees serialise to the same JSON text?  (same_tree + key order)"""
+    if isinstance(a, dict):
+        if not isinstance(b, dict) or list(a.keys()) != list(b.keys()):
+            return False
+        for k in a:
+            if not same_bytes(a[k], b[k]):
+                return False
+        return True
+    if isinstance(a, list):
+        if not isinstance(b, list) or len(a) != len(b):
+            return False
+        for x, y in zip(a, b):
+            if not same_bytes(x, y):
+                return False
+        return True
+    return same_tree(a, b)
+
+
 def copy_tree(t):
     if isinstance(t, dict):
         return {k: copy_tree(v) for k, v in t.items()}
@@ -122,7 +141,7 @@ class JText:
         return tree_size(self.tree)
 
     def __eq__(self, other):
-        return isinstance(other, JText) and same_tree(self.tree, other.tree)
+        return isinstance(other, JText) and same_bytes(self.tree, other.tree)
 
     def __ne__(self, other):
         return not self.__eq__(other)
@@ -151,7 +170,7 @@ class Blob:
         return (
             isinstance(other, Blob)
             and self.corrupt == other.corrupt
-            and same_tree(self.tree, other.tree)
+            and same_bytes(self.tree, other.tree)
         )
 
     def __ne__(self, other):
@@ -222,6 +241,35 @@ class CodecModel:
 
     def load(self, fp, **kw):
         return self.loads(fp.read(), **kw)
+
+
+class RealJson:
+    """Real json with an injectable serialisation failure (replay of codec faults)."""
+
+    JSONDecodeError = _real_json.JSONDecodeError
+    JSONEncoder = _real_json.JSONEncoder
+
+    def __init__(self, env):
+        self.env = env
+
+    def _fault(self):
+        self.env.codec_calls += 1
+        if self.env.dumps_fault_at is not None and self.env.codec_calls - 1 == self.env.dumps_fault_at:
+            raise TypeError("injected: not JSON serializable")
+
+    def dumps(self, obj, **kw):
+        self._fault()
+        return _real_json.dumps(obj, **kw)
+
+    def dump(self, obj, fp, **kw):
+        self._fault()
+        return fp.write(_real_json.dumps(obj, **kw))
+
+    def loads(self, s, **kw):
+        return _real_json.loads(s, **kw)
+
+    def load(self, fp, **kw):
+        return _real_json.loads(fp.read(), **kw)
 
 
 class _Digest:
@@ -362,29 +410,43 @@ class _Reader:
 
 
 class _Writer:
-    def __init__(self, fs, name):
+    """Buffered writer: what write() was given reaches the file object (the inode the
+    writer opened, whatever its name is by then) at flush()/close().  A crash before
+    that leaves the inode empty (or, with crash_partial, holding a strict prefix)."""
+
+    def __init__(self, fs, name, fobj):
         self.fs = fs
         self.name = name
+        self.fobj = fobj
+        self.pending = None
+        self.closed = False
 
     def write(self, blob):
         fs = self.fs
-        fs._effect("write", self.name, partial_target=(self.name, blob))
-        f = fs.files.get(self.name)
-        if f is None:
-            f = fs.files[self.name] = _File(EMPTY, fs._tick(), fs._new_ino())
-        f.content = blob
-        f.mtime = fs._tick()
+        fs._effect("write", self.name, partial_target=(self.fobj, blob))
+        self.pending = blob
         fs.write_count += 1
         return len(blob) if hasattr(blob, "__len__") else 0
 
+    def _land(self):
+        if self.pending is not None:
+            self.fobj.content = self.pending
+            self.fobj.mtime = self.fs._tick()
+            self.pending = None
+
     def flush(self):
-        pass
+        self.fs._effect("flush", self.name, partial_target=(self.fobj, self.pending) if self.pending is not None else None)
+        self._land()
 
     def fileno(self):
         return 3
 
     def close(self):
-        self.fs._effect("close", self.name)
+        if self.closed:
+            return
+        self.fs._effect("close", self.name, partial_target=(self.fobj, self.pending) if self.pending is not None else None)
+        self._land()
+        self.closed = True
 
     def __enter__(self):
         return self
@@ -439,9 +501,7 @@ class FSModel:
         self.effects += 1
         if self.crash_at is not None and k == self.crash_at:
             if partial_target is not None and self.crash_partial:
-                f = self.files.get(partial_target[0])
-                if f is not None:
-                    f.content = Blob(getattr(partial_target[1], "tree", None), corrupt=True)
+                partial_target[0].content = Blob(getattr(partial_target[1], "tree", None), corrupt=True)
             self.log.append(("crash", kind, name))
             raise Crash(kind, name)
         self.log.append((kind, name))
@@ -457,11 +517,11 @@ class FSModel:
             self._effect("open_w", name)
             f = self.files.get(name)
             if f is None:
-                self.files[name] = _File(EMPTY, self._tick(), self._new_ino())
+                f = self.files[name] = _File(EMPTY, self._tick(), self._new_ino())
             else:
                 f.content = EMPTY
                 f.mtime = self._tick()
-            return _Writer(self, name)
+            return _Writer(self, name, f)
         raise UnmodelledCall(f"open mode {mode!r}")
 
     def replace(self, src, dst):
@@ -611,20 +671,32 @@ class RealFS:
             real = builtins.open(name, mode, *a, **k)
 
             class W:
+                pending = None
+
                 def write(self_, data):
                     fs._effect("write", name, partial=(real, data))
                     fs.write_count += 1
-                    return real.write(data)
+                    self_.pending = data if self_.pending is None else self_.pending + data
+                    return len(data)
+
+                def _land(self_):
+                    if self_.pending:
+                        real.write(self_.pending)
+                        self_.pending = None
+                    real.flush()
 
                 def flush(self_):
-                    real.flush()
+                    fs._effect("flush", name, partial=(real, self_.pending) if self_.pending else None)
+                    self_._land()
 
                 def fileno(self_):
                     return real.fileno()
 
                 def close(self_):
-                    real.flush()
-                    fs._effect("close", name)
+                    if real.closed:
+                        return
+                    fs._effect("close", name, partial=(real, self_.pending) if self_.pending else None)
+                    self_._land()
                     real.close()
 
                 def __enter__(self_):
@@ -963,9 +1035,9 @@ class Env:
                 self._set(m, "open", self._openproxy)
             if d.get("uuid") is _real_uuid:
                 self._set(m, "uuid", self._uuidproxy)
+            if d.get("json") is _real_json:
+                self._set(m, "json", self._jsonproxy)
             if self.mode == "model":
-                if d.get("json") is _real_json:
-                    self._set(m, "json", self._jsonproxy)
                 if d.get("hashlib") is _real_hashlib:
                     self._set(m, "hashlib", self._hashproxy)
                 if d.get("RLock") is threading.RLock:
@@ -1087,7 +1159,8 @@ class Env:
                 shutil.rmtree(self._tmp, ignore_errors=True)
             self._tmp = tempfile.mkdtemp(prefix="vf_real_")
             self.fs = RealFS(self._tmp)
-            self.json = _real_json
+            self.json = RealJson(self)
+            self._jsonproxy._target = self.json
             self._osproxy._target = _RealOS(self.fs)
             self.dir = self._tmp
         self._uuidproxy._target = UuidModel() if self.mode == "model" else _real_uuid
@@ -1122,9 +1195,9 @@ class Env:
         if c is MISSING:
             return MISSING
         if self.mode == "model":
-            if not isinstance(c, Blob):
+            if not isinstance(c, (Blob, JText)):
                 return CORRUPT
-            return CORRUPT if c.corrupt else copy_tree(c.tree)
+            return CORRUPT if getattr(c, "corrupt", False) else copy_tree(c.tree)
         try:
             return _real_json.loads(c)
         except ValueError:
